@@ -6,7 +6,7 @@ import os
 
 from . import common
 
-NONTRIVIAL = r"^(merkle|keys|dkey|pay|sens|vrf|vsens|ts|tsens|rt|dec|decbig|zbomb|zcap|zdec) "
+NONTRIVIAL = r"^(merkle|keys|dkey|pay|sens|vrf|vsens|ts|tsens|rt|dec|decbig|zbomb|zcap|zdec|zconc) "
 
 
 def regen_schema():
